@@ -126,7 +126,8 @@ class AttestationsDB(Database):
                     f"ALTER TABLE {self.db_name}\n"
                     "ADD id_format TINYTEXT;\n\n"
                     f"UPDATE {self.db_name} SET id_format='id_metadata';\n"
-                    "UPDATE option SET value='2' WHERE key='database_version';\n"
+                    "CREATE TABLE IF NOT EXISTS option(key TEXT PRIMARY KEY, value BLOB);\n"
+                    "INSERT OR REPLACE INTO option(key, value) VALUES('database_version', '2');\n"
                     "COMMIT;\n")
         return None
 
@@ -140,6 +141,11 @@ class AttestationsDB(Database):
         assert database_version.isdigit()
         assert int(database_version) >= 0
         idatabase_version = int(database_version) or self.LATEST_DB_VERSION
+        if int(database_version) == 0:
+            # No stored version: a version 1 table may still be there (its version was never written or got lost).
+            columns = [row[1] for row in self.execute(f"PRAGMA table_info({self.db_name})")]
+            if columns and b"id_format" not in columns and "id_format" not in columns:
+                idatabase_version = 1
 
         if idatabase_version < self.LATEST_DB_VERSION:
             while idatabase_version < self.LATEST_DB_VERSION:
